@@ -47,6 +47,7 @@ def main() -> int:
         extract.write_generated(ctx)
         mod = importlib.import_module(f"harness.{prop.lower()}")
         if a.replay:
+            ctx.is_replay = True
             body = json.loads(Path(a.replay).read_text())
             mode = (body.get("case") or {}).get("annot", False) if isinstance(body.get("case"), dict) else False
             with ctx.wrapped(mode):
